@@ -178,6 +178,18 @@ func (c16) Gen(r *Rand, sc *Scenario, tier string) {
 		sc.Tasks = [][]Op{ops}
 		return
 	}
+	if r.Chance(1, 8) {
+		// one reader, several direct reads of small and empty containers in a row
+		n := r.Range(2, 5)
+		for i := 0; i < n; i++ {
+			name := []string{"VR.ReadObject", "VR.ReadArray", "VR.ReadValue"}[r.Intn(3)]
+			small := []string{"{}", "[]", " {} ", "[ ]", `{"a":1}`, `[1]`, `{"a":{}}`, `[[]]`, `{"k":"v","l":[1,2]}`, `[{"a":"\n"}]`, `{"x":[],"y":{}}`, `[1,2,3]`}
+			sc.Docs = append(sc.Docs, docOf([]byte(small[r.Intn(len(small))]), "small-container"))
+			ops = append(ops, Op{Kind: name, Doc: i, C: r.Intn(2)})
+		}
+		sc.Tasks = [][]Op{ops}
+		return
+	}
 	nops := []int{1, 2, 3, 5, 8}[r.Intn(5)]
 	faultFree := r.Chance(1, 6)
 	all := apiNames(nil)
